@@ -57,6 +57,14 @@ func verifWalkContext(env envs.Environment, path string, v types.XValue, depth i
 	}
 }
 
+// the expression context is walked to depth 3 (quick) / 5 (thorough)
+func verifC19Depth() int {
+	if zzverif.Thorough() {
+		return 5
+	}
+	return 3
+}
+
 // verifC19Run builds and runs one session whose contact and messages carry
 // the given URN, and returns the rendering of its whole expression context
 // after the start and after one msg resume.
@@ -84,10 +92,10 @@ func verifC19Run(policy envs.RedactionPolicy, urn urns.URN, named bool) []string
 	zzverif.Assert(err == nil && sess.Status() == flows.SessionStatusWaiting, "setup: session not waiting")
 	var out []string
 	menv := sess.MergedEnvironment()
-	verifWalkContext(menv, "@start", sess.CurrentContext(), 3, &out)
+	verifWalkContext(menv, "@start", sess.CurrentContext(), verifC19Depth(), &out)
 	_, err = sess.Resume(verifResumeMsg(urn))
 	zzverif.Assert(err == nil, "setup: resume failed")
-	verifWalkContext(menv, "@resumed", sess.CurrentContext(), 3, &out)
+	verifWalkContext(menv, "@resumed", sess.CurrentContext(), verifC19Depth(), &out)
 	return out
 }
 
